@@ -303,7 +303,11 @@ func (g *Graph) Text() string {
 		b.WriteString("0 HEAD\n1 CHAR UTF-8\n")
 	}
 	for _, p := range g.People {
-		b.WriteString("0 @" + p.Ptr + "@ INDI\n")
+		if p.Ptr == "" {
+			b.WriteString("0 INDI\n")
+		} else {
+			b.WriteString("0 @" + p.Ptr + "@ INDI\n")
+		}
 		for _, n := range p.Names {
 			b.WriteString("1 NAME " + n + "\n")
 		}
@@ -356,6 +360,29 @@ func (g *Graph) Text() string {
 		b.WriteString("0 TRLR\n")
 	}
 	return b.String()
+}
+
+// padText adds blanks the decoder has always ignored: a trailing blank on
+// every every-th line below level 0 that has a value, a second blank between
+// tag and value on the line after it. The document does not change.
+func padText(text string, every int) string {
+	if every <= 0 {
+		return text
+	}
+	lines := strings.Split(text, "\n")
+	for i, l := range lines {
+		f := strings.SplitN(l, " ", 3)
+		if len(f) < 3 || f[0] == "0" || strings.HasPrefix(f[1], "@") {
+			continue
+		}
+		switch i % every {
+		case 0:
+			lines[i] = l + " "
+		case 1:
+			lines[i] = f[0] + " " + f[1] + "  " + f[2]
+		}
+	}
+	return strings.Join(lines, "\n")
 }
 
 func (g *Graph) Clone() *Graph {
